@@ -198,6 +198,8 @@ func (g *gen) genFunc(typs []types.Type) error {
 
 func (g *gen) genStatement(typ types.Type, this, that string) error {
 	p := g.printer
+	// an alias is the type it stands for: look at that type, not at the alias node
+	typ = types.Unalias(typ)
 	switch ttyp := typ.Underlying().(type) {
 	case *types.Pointer:
 		p.P("if %s == nil {", this)
@@ -215,7 +217,7 @@ func (g *gen) genStatement(typ types.Type, this, that string) error {
 		p.P("return 1")
 		p.Out()
 		p.P("}")
-		reftyp := ttyp.Elem()
+		reftyp := types.Unalias(ttyp.Elem())
 		named, isNamed := reftyp.(*types.Named)
 		strct, isStruct := reftyp.Underlying().(*types.Struct)
 		if !isStruct || !isNamed {
